@@ -99,6 +99,9 @@ type symCfg struct {
 	expI, expR             bool // KK: the stored key of the peer is the true one
 	payload                []byte
 	tamper                 []string // "v<act>=<ver>" | "f<act>:<byte>:<bit>"
+	staleAuth              []byte   // auth payload the initiator's ConnData holds from an earlier handshake
+	refuseStatic           bool     // the responder's application refuses the initiator's static key (callback error)
+	failAuth               bool     // the initiator's application rejects the auth payload (callback error)
 }
 
 type symObs struct {
@@ -110,6 +113,9 @@ type symObs struct {
 	remI, remR   []byte      // ConnData.RemoteKey after the handshake (set only from version 2 on)
 	authI        []byte
 	authSet      bool
+	sidI, sidR   [64]byte // ConnData.SID() of either side after the handshake
+	sidOK        bool
+	remRafter    []byte // the responder's stored remote key after the handshake, whatever its outcome
 }
 
 func applyTamper(specs []string) func(from, idx int, msg []byte) []byte {
@@ -145,11 +151,18 @@ func runSym(r *rng, c symCfg, keys [5]*btcec.PrivateKey) symObs {
 			remR = keys[4].PubKey()
 		}
 	}
-	cdI := mailbox.NewConnData(keyECDH(keys[0]), remI, c.pwI, nil, nil, func(d []byte) error {
+	cdI := mailbox.NewConnData(keyECDH(keys[0]), remI, c.pwI, c.staleAuth, nil, func(d []byte) error {
 		o.authSet = true
+		if c.failAuth {
+			return fmt.Errorf("application rejects the auth data")
+		}
 		return nil
 	})
-	cdR := mailbox.NewConnData(keyECDH(keys[1]), remR, c.pwR, c.payload, nil, nil)
+	var onStatic func(*btcec.PublicKey) error
+	if c.refuseStatic {
+		onStatic = func(*btcec.PublicKey) error { return fmt.Errorf("application refuses this client key") }
+	}
+	cdR := mailbox.NewConnData(keyECDH(keys[1]), remR, c.pwR, c.payload, onStatic, nil)
 	fixed := func(k *btcec.PrivateKey) func() (*btcec.PrivateKey, error) {
 		return func() (*btcec.PrivateKey, error) { return k, nil }
 	}
@@ -194,6 +207,14 @@ func runSym(r *rng, c symCfg, keys [5]*btcec.PrivateKey) symObs {
 			o.remI = k.SerializeCompressed()
 		}
 		o.authI = cdI.AuthData()
+	}
+	if k := cdR.RemoteKey(); k != nil {
+		o.remRafter = k.SerializeCompressed()
+	}
+	if a, err1 := cdI.SID(); err1 == nil {
+		if b, err2 := cdR.SID(); err2 == nil {
+			o.sidI, o.sidR, o.sidOK = a, b, true
+		}
 	}
 	if o.okR {
 		o.verR = int(mR.VerifVersion())
@@ -240,10 +261,12 @@ func TestGenSym(t *testing.T) {
 		if len(c.tamper) > 0 {
 			tam = strings.Join(c.tamper, ",")
 		}
-		o.line("SYM s%d kk=%d mini=%d maxi=%d minr=%d maxr=%d pwi=%s pwr=%s expi=%d expr=%d payload=%s tamper=%s keys=%s | ctor=%d,%d ok=%d,%d ver=%d,%d sentI=%s sentR=%s keysI=%s,%s keysR=%s,%s remI=%s remR=%s authI=%s authset=%d",
-			id, b2i(c.kk), c.minI, c.maxI, c.minR, c.maxR, hx(c.pwI), hx(c.pwR), b2i(c.expI), b2i(c.expR), hx(c.payload), tam, strings.Join(ks, ","),
-			b2i(ob.ctorI), b2i(ob.ctorR), b2i(ob.okI), b2i(ob.okR), ob.verI, ob.verR, hexList(ob.sent[0]), hexList(ob.sent[1]),
-			hx(ob.keysI[0][:]), hx(ob.keysI[1][:]), hx(ob.keysR[0][:]), hx(ob.keysR[1][:]), hx(ob.remI), hx(ob.remR), hx(ob.authI), b2i(ob.authSet))
+		if !c.refuseStatic && !c.failAuth { // the symbolic model has no application callbacks: oracles only
+			o.line("SYM s%d kk=%d mini=%d maxi=%d minr=%d maxr=%d pwi=%s pwr=%s expi=%d expr=%d payload=%s tamper=%s keys=%s | ctor=%d,%d ok=%d,%d ver=%d,%d sentI=%s sentR=%s keysI=%s,%s keysR=%s,%s remI=%s remR=%s authI=%s authset=%d",
+				id, b2i(c.kk), c.minI, c.maxI, c.minR, c.maxR, hx(c.pwI), hx(c.pwR), b2i(c.expI), b2i(c.expR), hx(c.payload), tam, strings.Join(ks, ","),
+				b2i(ob.ctorI), b2i(ob.ctorR), b2i(ob.okI), b2i(ob.okR), ob.verI, ob.verR, hexList(ob.sent[0]), hexList(ob.sent[1]),
+				hx(ob.keysI[0][:]), hx(ob.keysI[1][:]), hx(ob.keysR[0][:]), hx(ob.keysR[1][:]), hx(ob.remI), hx(ob.remR), hx(ob.authI), b2i(ob.authSet))
+		}
 		q.stat("scenarios", 1)
 		q.stat("class_"+class, 1)
 		q.stat("distinct_nontrivial", 1)
@@ -268,15 +291,34 @@ func TestGenSym(t *testing.T) {
 			})
 			vk := "c04:version-split:" + class
 			if len(c.tamper) > 0 {
-				vk = fmt.Sprintf("c04:version-split:%s:I=%d,R=%d", class, ob.verI, ob.verR)
+				pat := "xx"
+				if c.kk {
+					pat = "kk"
+				}
+				vk = fmt.Sprintf("c04:version-split:%s:%s:%s:I=%d,R=%d", class, pat, strings.Join(c.tamper, "+"), ob.verI, ob.verR)
 			}
 			q.check(ob.verI == ob.verR, vk, desc)
 		}
 		if len(c.tamper) == 0 && secretsMatch && ob.ctorI && ob.ctorR {
 			// untampered: both fail or both complete (XX); KK responder may finish alone
-			if !c.kk {
+			if !c.kk && !c.refuseStatic && !c.failAuth {
 				q.check(ob.okI == ob.okR, "c04:one-sided-completion:"+class, desc)
 			}
+			// C17: after an untampered handshake between holders of the same secret both sides derive the same
+			// session identifier for the next connection (pass phrase before a key exchange, static keys after),
+			// also when the initiator's application then rejects the auth data. (A responder whose application
+			// refused the client keeps the pass-phrase rendezvous on purpose: excluded.)
+			if !c.refuseStatic && ob.sidOK {
+				q.check(ob.sidI == ob.sidR, "c17:session-identifiers-differ-after-handshake:"+class, func() string {
+					return desc() + fmt.Sprintf("; client SID %x.., server SID %x..", ob.sidI[:6], ob.sidR[:6])
+				})
+			}
+		}
+		if c.refuseStatic {
+			// C11: a client the application refused must not move the server to a new rendezvous
+			q.check(len(ob.remRafter) == 0, "c11:refused-client-key-stored:"+class, func() string {
+				return desc() + fmt.Sprintf("; the server's ConnData holds remote key %x after refusing it, handshake ok=%v", ob.remRafter, ob.okR)
+			})
 		}
 		return ob
 	}
@@ -305,6 +347,19 @@ func TestGenSym(t *testing.T) {
 		emit(symCfg{kk: true, minI: 2, maxI: 2, minR: 2, maxR: 2, pwI: base, pwR: base, expI: i%3 != 0, expR: i%3 != 1, payload: []byte("macaroon-secret")}, "kk-wrong-key")
 		emit(symCfg{minI: 0, maxI: 2, minR: 0, maxR: 2, pwI: pw(r), pwR: pw(r), payload: []byte("macaroon-secret")}, "pw-random")
 	}
+	// (2b) the initiator's ConnData still holds the auth payload of an earlier handshake; application callbacks that
+	// refuse the client's static key (responder) or reject the auth data (initiator)
+	for _, ver := range [][4]int{{0, 0, 0, 0}, {1, 1, 1, 1}, {2, 2, 2, 2}, {0, 2, 0, 2}, {0, 2, 0, 1}, {0, 2, 0, 0}, {0, 1, 0, 2}} {
+		for _, pl := range [][]byte{nil, []byte("new-macaroon")} {
+			emit(symCfg{minI: ver[0], maxI: ver[1], minR: ver[2], maxR: ver[3], pwI: base, pwR: base, expI: true, expR: true,
+				payload: pl, staleAuth: []byte("old-macaroon-of-an-earlier-session")}, "stale-auth")
+			emit(symCfg{minI: ver[0], maxI: ver[1], minR: ver[2], maxR: ver[3], pwI: base, pwR: base, expI: true, expR: true,
+				payload: pl, refuseStatic: true}, "refused-client")
+			emit(symCfg{minI: ver[0], maxI: ver[1], minR: ver[2], maxR: ver[3], pwI: base, pwR: base, expI: true, expR: true,
+				payload: pl, failAuth: true}, "auth-rejected")
+		}
+	}
+	emit(symCfg{kk: true, minI: 2, maxI: 2, minR: 2, maxR: 2, pwI: base, pwR: base, expI: true, expR: true, staleAuth: []byte("old")}, "stale-auth")
 	// (3) payload sizes incl. the version-0 limit and large ones
 	sizes := []int{0, 1, 497, 498, 499, 600, 65535, 65536, 70000}
 	if thorough() {
